@@ -108,6 +108,8 @@ class HistoryRun:
         self.max_depth = 0
         self.stats = {}
         self._cases = None
+        self.decos = {}
+        self.active_decos = []
 
     def bump(self, k, n=1):
         self.stats[k] = self.stats.get(k, 0) + n
@@ -182,8 +184,21 @@ class HistoryRun:
                 with self.config.config_context(**kw):
                     body()
             else:
-                deco = self.config.config_context(**kw)
-                deco(body)()
+                # decorator use.  One decorator *object* per distinct option set and history, the way a module defines
+                # `quiet = config_context(validation_enabled=False)` once and decorates several functions with it: nested
+                # nodes with the same options re-enter the same object (legal: the decorator form builds a fresh context
+                # manager per call).
+                key = kernel.jdump(node["opts"])
+                deco = self.decos.get(key)
+                if deco is None:
+                    deco = self.decos[key] = self.config.config_context(**kw)
+                elif key in self.active_decos:
+                    self.bump("probe.decorator_object_reentered")
+                self.active_decos.append(key)
+                try:
+                    deco(body)()
+                finally:
+                    self.active_decos.pop()
         finally:
             self.stack.pop()
 
@@ -244,6 +259,11 @@ def gen_tree(rng, depth_left, allow_validate=True):
         if r < 0.55 and depth_left > 1:
             child = gen_tree(rng, depth_left - 1, allow_validate)
             child["caught"] = rng.random() < 0.7
+            if rng.random() < 0.2:
+                # the same decorator object as the enclosing node (recursion / one decorator on caller and callee)
+                node["via"] = "decorator"
+                child["via"] = "decorator"
+                child["opts"] = node["opts"]
             node["body"].append(child)
         elif allow_validate:
             node["body"].append({"validate": rng.randrange(10 ** 6), "lazy": rng.random() < 0.5})
